@@ -33,3 +33,13 @@ _orig_register = register
 def register(m):
     _orig_register(m)
     _more(m)
+
+
+_o2 = register
+
+
+def register(m):
+    _o2(m)
+    Q = "symplyphysics/core/symbols/quantities.py"
+    m("C02", "c02-quantity-ge-with-tolerance", Q, "    return scale_factor(lhs) >= scale_factor(rhs)", "    return scale_factor(lhs) >= scale_factor(rhs) - 1e-12", "P7")
+    m("C02", "c02-quantity-positive-threshold", Q, "            return scale_factor(self) >= 0", "            return scale_factor(self) >= -1e-15", "P7")
